@@ -17,6 +17,7 @@ package options
 //@ pure strNorm(v string, cfg *execution.StringOptionConfig) string = strTrim(cfg) ? trimSpace(v) : v
 
 //@ func EvaluateOptionString
+//@   params value, option, cfg, fldPath
 //@   tags C18
 //@   ensures [C18] wrong-type-is-rejected: value != nil && !typeis(value, string) ==> result1 != nil
 //@   ensures [C18] value-or-default-then-trimmed: result1 == nil ==> result0 == strNorm(strGiven(value, cfg), cfg)
@@ -29,6 +30,7 @@ package options
 //@ pure selAllowed(v string, cfg *execution.SelectOptionConfig) bool = len(v) == 0 || (cfg != nil && (cfg.AllowCustom || stringsutils.containsStr(cfg.Values, v)))
 
 //@ func EvaluateOptionSelect
+//@   params value, option, cfg, fldPath
 //@   tags C18
 //@   ensures [C18] wrong-type-is-rejected: value != nil && !typeis(value, string) ==> result1 != nil
 //@   ensures [C18] value-or-default: result1 == nil ==> result0 == selGiven(value, cfg)
@@ -42,6 +44,7 @@ package options
 //@ pure boolOut(cfg *execution.BoolOptionConfig, v bool) string = cfg == nil ? execution.boolFmt("", v) : execution.boolStr(cfg, v)
 //@ pure boolOutOK(cfg *execution.BoolOptionConfig) bool = cfg == nil ? execution.boolFmtOK("") : execution.boolStrOK(cfg)
 //@ func EvaluateOptionBool
+//@   params value, cfg, fldPath
 //@   tags C18
 //@   ensures [C18] wrong-type-is-rejected: value != nil && !typeis(value, bool) ==> result1 != nil
 //@   ensures [C18] value-or-default-formatted: result1 == nil ==> result0 == boolOut(cfg, boolGiven(value, cfg))
@@ -54,6 +57,7 @@ package options
 //@ pure multiElemsOK(v []string, cfg *execution.MultiOptionConfig) bool =
 //@     forall k int :: {v[k]} 0 <= k && k < len(v) ==> len(v[k]) > 0 && (cfg != nil && (cfg.AllowCustom || stringsutils.containsStr(cfg.Values, v[k])))
 //@ func EvaluateOptionMulti
+//@   params value, option, cfg, fldPath
 //@   tags C18
 //@   loop 1 invariant -1 <= rangeindex && rangeindex < len(vi) && len(newValue) == rangeindex + 1
 //@   loop 2 invariant -1 <= rangeindex && rangeindex < len(v)
@@ -75,6 +79,7 @@ package options
 //@   ensures result1 == nil ==> result0 == momentFmt(ts, format)
 //@ pure dateFormat(cfg *execution.DateOptionConfig) string = cfg == nil ? "" : cfg.Format
 //@ func EvaluateOptionDate
+//@   params value, option, cfg, fldPath
 //@   tags C18
 //@   ensures [C18] wrong-type-is-rejected: value != nil && !typeis(value, string) && !typeis(value, time.Time) && !typeis(value, *time.Time) ==> result1 != nil
 //@   ensures [C18] no-value-is-empty-unless-required: value == nil ==> (option.Required ? result1 != nil : (result1 == nil && result0 == ""))
@@ -90,6 +95,7 @@ package options
 //@ pure simpleType(option execution.Option) bool = option.Type == execution.OptionTypeBool || option.Type == execution.OptionTypeString || option.Type == execution.OptionTypeSelect
 //@ pure knownType(option execution.Option) bool = simpleType(option) || option.Type == execution.OptionTypeMulti || option.Type == execution.OptionTypeDate
 //@ func EvaluateOption
+//@   params value, option, fldPath
 //@   tags C18
 //@   ensures [C18] unknown-type-is-rejected: !knownType(option) ==> result1 != nil
 //@   ensures [C18] value-by-type: result1 == nil && simpleType(option) ==> result0 == optValue(value, option)
@@ -101,6 +107,7 @@ package options
 //@ pure optKey(name string) string = sprintf("option.%v", name)
 //@ axiom optkey-injective: forall a string, b string :: {optKey(a), optKey(b)} optKey(a) == optKey(b) ==> a == b
 //@ func MakeOptionVariableName
+//@   params option
 //@   ensures [C18] result == optKey(option.Name)
 
 //@ pure distinctNames(opts []execution.Option) bool = forall a int, b int :: 0 <= a && a < b && b < len(opts) ==> opts[a].Name != opts[b].Name
@@ -108,6 +115,7 @@ package options
 
 // on success exactly one value per declared option, and nothing else
 //@ func EvaluateOptions
+//@   params options, cfg, fldPath
 //@   tags C18
 //@   fresh result0
 //@   loop 1 invariant -1 <= rangeindex && rangeindex < len(cfg.Options) && eval != nil && fresh(eval) && len(allErrs) >= 0
@@ -122,13 +130,17 @@ package options
 
 // ---- default.go: the value the JobConfig's defaults produce ---------------------------------------------------------------------
 //@ func GetOptionDefaultStringValue
+//@   params cfg
 //@   ensures [C18] result == strNorm(strDefault(cfg), cfg)
 //@ func EvaluateOptionDefaultString
+//@   params cfg
 //@   tags C18
 //@   ensures [C18] result1 == nil && result0 == strNorm(strDefault(cfg), cfg)
 //@ func GetOptionDefaultSelectValue
+//@   params cfg
 //@   ensures [C18] result == selDefault(cfg)
 //@ func EvaluateOptionDefaultSelect
+//@   params cfg
 //@   tags C18
 //@   ensures [C18] result1 == nil && result0 == selDefault(cfg)
 
@@ -136,19 +148,24 @@ package options
 //@ lemma [C18] string-default-agrees: forall cfg *execution.StringOptionConfig :: strNorm(strGiven(nil, cfg), cfg) == strNorm(strDefault(cfg), cfg)
 
 //@ func GetOptionDefaultBoolValue
+//@   params cfg
 //@   ensures [C18] result == (cfg != nil && cfg.Default)
 //@ func EvaluateOptionDefaultBool
+//@   params cfg
 //@   tags C18
 //@   ensures [C18] (result1 == nil) == boolOutOK(cfg)
 //@   ensures [C18] result1 == nil ==> result0 == boolOut(cfg, cfg != nil && cfg.Default)
 //@ func GetOptionDefaultMultiValue
+//@   params cfg
 //@   ensures [C18] result == multiDefault(cfg)
 //@ func EvaluateOptionDefaultMulti
+//@   params cfg
 //@   tags C18
 //@   ensures [C18] result1 == nil && result0 == joinStrs(multiDefault(cfg), multiDelim(cfg))
 
 // the default of an option is what its evaluation yields when no value is given (C18)
 //@ func EvaluateOptionDefault
+//@   params option
 //@   tags C18
 //@   ensures [C18] default-is-evaluation-of-no-value: result1 == nil && simpleType(option) ==> result0 == optValue(nil, option)
 //@   ensures [C18] multi-default: result1 == nil && option.Type == execution.OptionTypeMulti ==> result0 == joinStrs(multiDefault(option.Multi), multiDelim(option.Multi))
@@ -156,6 +173,7 @@ package options
 //@   ensures [C18] unknown-type-is-rejected: !knownType(option) ==> result1 != nil
 
 //@ func MakeDefaultOptions
+//@   params cfg
 //@   tags C18
 //@   fresh result0
 //@   loop 1 invariant -1 <= rangeindex && rangeindex < len(cfg.Options) && opts != nil && fresh(opts)
@@ -170,6 +188,7 @@ package options
 // MergeSubstitutions: a fresh map in which, for every key, the last map that contains it wins; the inputs are untouched
 //@ pure inSome(ms []map[string]string, n int, k string) bool = exists i int :: 0 <= i && i < n && (k in ms[i])
 //@ func MergeSubstitutions
+//@   params paramMaps
 //@   tags C18, C16
 //@   fresh result
 //@   loop 1 invariant -1 <= rangeindex && rangeindex < len(paramMaps) && newParams != nil && fresh(newParams)
@@ -186,6 +205,7 @@ package options
 // strings.ReplaceAll and the "${%v}" pattern are ASSUMED deterministic functions (replaceAll, varPattern).
 
 //@ func SubstituteVariables
+//@   params target, submap
 //@   tags C18
 //@   loop 1 invariant len(submap) == 0 ==> target == old(target)
 //@   ensures [C18] nothing-to-substitute: len(submap) == 0 ==> result == target
@@ -199,6 +219,7 @@ package options
 //@   params target, prefixes
 // priority: the maps are applied in the order given (most important first), then the reserved prefixes are emptied
 //@ func SubstituteVariableMaps
+//@   params target, submaps, prefixes
 //@   tags C18
 //@   loop 1 invariant -1 <= rangeindex && rangeindex < len(submaps)
 //@   loop 1 invariant len(submaps) == 0 ==> target == old(target)
@@ -209,6 +230,7 @@ package options
 //@   params option, fldPath
 //@   fresh result
 //@ func ValidateOptionSpec
+//@   params spec, fldPath
 //@   tags C18, C17
 //@   loop 1 invariant -1 <= rangeindex && rangeindex < len(spec.Options) && optionNames != nil && fresh(optionNames) && len(allErrs) >= 0
 //@   loop 1 invariant len(allErrs) == 0 ==> (forall k int :: {spec.Options[k]} 0 <= k && k <= rangeindex ==> (spec.Options[k].Name in optionNames))
